@@ -175,12 +175,13 @@ fn run_one_inner(args: &Args, prof: &Profile, run: u64, rep: &mut Report, make_m
 			outcome = format!("inconclusive: {}", e);
 			rep.inconclusive(format!("{}: {}", label, e));
 		},
-		Err(p) if p.contains("some channel balance has been overdrawn") && sim.w.chans.iter().any(|c| c.model.as_ref().map(|m| { let pend = m.pending_htlcs(); pend.iter().any(|h| h.0 == 0) && pend.iter().any(|h| h.0 == 1) }).unwrap_or(false)) => {
-			// Debug-only assertion in list_channels: with HTLCs added concurrently from both sides the
-			// funder may be unable to pay the commitment fee (the protocol's known race; release builds
-			// report zero limits and carry on). Observation, not a violation – see DESIGN.md §6 C01.
-			outcome = "ldk debug assertion (balance overdrawn under concurrent adds)".to_string();
-			rep.count("ldk_debug_assert_overdrawn_under_concurrent_adds");
+		Err(p) if p.contains("some channel balance has been overdrawn") => {
+			// Debug-only assertion in list_channels (ChannelDetails::from_channel): with HTLCs added concurrently
+			// from both sides (including ones still in a holding cell) the funder may be unable to pay the
+			// commitment fee - the protocol's known race. Release builds report zero limits and carry on, and
+			// any real disagreement is caught by the commitment model / honest-failure rules. Observation.
+			outcome = "ldk debug assertion (channel balance overdrawn)".to_string();
+			rep.count("ldk_debug_assert_balance_overdrawn_observed");
 		},
 		Err(p) if p.contains("Non-event-generating channel freeing should not appear in our queue") => {
 			// Debug-only assertion in ChannelManager::read: a FreeDuplicateClaimImmediately action was found in the
@@ -267,7 +268,7 @@ fn drive(sim: &mut Sim, prof: &Profile, rng: &mut Rng, rep: &mut Report, ctype: 
 	let mut mined = 0u32;
 	for _s in 0..prof.steps {
 		sim.w.step += 1;
-		let act = rng.weighted(&[40, 14, 10, 8, 8, 8, 2, 3, 2, 1, 2, 2, 1, 2, 1, 1]);
+		let act = rng.weighted(&[40, 14, 10, 8, 8, 8, 2, 3, 2, 1, 2, 2, 1, 2, 1, 1, if prof.allow_restart { 2 } else { 0 }]);
 		match act {
 			0 => {
 				// deliver one message from a random non-empty queue
@@ -500,6 +501,68 @@ fn drive(sim: &mut Sim, prof: &Profile, rng: &mut Rng, rep: &mut Report, ctype: 
 						Err(e) => {
 							sim.raised.push(("C10".into(), "S1-reload".into(), format!("reload from persisted state failed: {}", vcore::canon(&e)), format!("node{} snapshot {:?}: {}", k, snap, e)));
 						},
+					}
+				}
+			},
+			16 => {
+				// restart in the middle of an update dance: deliver part of a queued batch, restart the receiver
+				// from a manager serialized right then (no lag), reconnect, and let it act before the
+				// retransmissions have been processed
+				let mut qs = vec![];
+				for a in 0..n {
+					for b in 0..n {
+						if a != b && sim.w.queue_len(a, b) > 0 {
+							qs.push((a, b));
+						}
+					}
+				}
+				if !qs.is_empty() {
+					let (a, b) = *rng.pick(&qs);
+					let k = 1 + rng.below(sim.w.queue_len(a, b) as u64) as usize;
+					for _ in 0..k.saturating_sub(rng.below(2) as usize).max(1) {
+						sim.w.deliver_one(a, b);
+					}
+					sim.dispatch(rep);
+					if sim.raised.is_empty() && !sim.w.any_dead() {
+						let pend = sim.w.nodes[b].persister.pending().len();
+						let reached: Vec<bool> = (0..pend).map(|_| rng.chance(1, 2)).collect();
+						sim.w.note(format!("MID-DANCE RESTART node{} (manager serialized now) after partial delivery from node{}", b, a));
+						let keep_async = async_on[b];
+						match sim.w.restart(b, None, &reached) {
+							Ok(_) => {
+								rep.count("restarts");
+								rep.count("mid_dance_restarts");
+								if keep_async {
+									sim.w.nodes[b].persister.async_mode.store(true, Ordering::SeqCst);
+								}
+								for p in 0..n {
+									if p != b && !sim.w.chan_between(b, p).is_empty() {
+										sim.w.connect(b, p);
+									}
+								}
+								// let the channel_reestablish exchange happen (first message each way), then the restarted
+								// node acts before the peer's retransmissions are processed
+								if rng.chance(3, 4) {
+									sim.w.deliver_one(a, b);
+									sim.w.deliver_one(b, a);
+									sim.w.process_events(b);
+								}
+								let c = sim.w.chan_between(a, b);
+								if !c.is_empty() && sim.w.chans[c[0]].ready && !sim.w.chans[c[0]].closed && rng.chance(2, 3) {
+									let cid = sim.w.chans[c[0]].chan_id();
+									if let Some(det) = sim.w.nodes[b].mgr.list_usable_channels().into_iter().find(|d| d.channel_id == cid) {
+										let amt = det.next_outbound_htlc_minimum_msat.max(1000).min(det.next_outbound_htlc_limit_msat);
+										if amt > 0 {
+											sim.w.note(format!("SEND node{}->node{} amt={} right after the restart", b, a, amt));
+											let _ = sim.w.send_payment(b, &[(vec![c[0]], amt)], 80, None, None);
+										}
+									}
+								}
+							},
+							Err(e) => {
+								sim.raised.push(("C10".into(), "S1-reload".into(), format!("reload from persisted state failed: {}", vcore::canon(&e)), format!("node{} manager serialized now: {}", b, e)));
+							},
+						}
 					}
 				}
 			},
